@@ -5,14 +5,17 @@
 package app
 
 import (
+	"math/big"
 	"strings"
 
+	ethcmn "github.com/ethereum/go-ethereum/common"
 	"github.com/pkg/errors"
 	"github.com/tendermint/tendermint/store"
 
 	"github.com/Oneledger/protocol/app/node"
 	"github.com/Oneledger/protocol/config"
 	"github.com/Oneledger/protocol/data/chain"
+	"github.com/Oneledger/protocol/data/keys"
 	"github.com/Oneledger/protocol/storage"
 )
 
@@ -73,3 +76,54 @@ func (app *App) VerifCloseDBs() {
 		app.Context.lockScriptStore.Close()
 	}
 }
+
+// ---- C17 (OLVM one ledger): read-only views of one account through both adapters ----
+
+// VerifViewState returns a State over the committed tree that shares the block cache of the
+// deliver state but meters reads on a private, unlimited gas calculator, so that observing the
+// state between two DeliverTx calls neither consumes block gas nor fails when the block is full.
+func (app *App) VerifViewState() *storage.State {
+	view := storage.NewState(app.Context.chainstate)
+	if gs, ok := app.Context.deliver.GetGasStore().(*storage.GasStore); ok {
+		view.WithGasStore(storage.NewGasStore(gs.SessionedDirectStorage, storage.NewGasCalculator(storage.Gas(1<<62))))
+	}
+	return view
+}
+
+// VerifNativeBalance is the native view: balances.GetBalanceForCurr on the deliver overlay.
+func (app *App) VerifNativeBalance(addr []byte, currency string) (*big.Int, error) {
+	defer app.Context.balances.WithState(app.Context.deliver)
+	cur, ok := app.Context.currencies.GetCurrencyByName(currency)
+	if !ok {
+		return nil, errors.New("verif: unknown currency " + currency)
+	}
+	coin, err := app.Context.balances.WithState(app.VerifViewState()).GetBalanceForCurr(keys.Address(addr), &cur)
+	if err != nil {
+		return nil, err
+	}
+	if coin.Amount == nil {
+		return new(big.Int), nil
+	}
+	return new(big.Int).Set(coin.Amount.BigInt()), nil
+}
+
+// VerifEVMAccount is the EVM view: what the CommitStateDB would hand to the interpreter for the
+// address right now (live object cache first, then the account keeper), read without inserting
+// anything into the cache. live tells whether the answer came from a cached object.
+func (app *App) VerifEVMAccount(addr []byte) (balance *big.Int, nonce uint64, hasCode bool, live bool) {
+	defer app.Context.stateDB.WithState(app.Context.deliver)
+	return app.Context.stateDB.WithState(app.VerifViewState()).VerifPeek(ethcmn.BytesToAddress(addr))
+}
+
+// VerifEVMLiveObjects is the number of state objects currently held by the EVM object cache.
+func (app *App) VerifEVMLiveObjects() int { return app.Context.stateDB.VerifLiveObjects() }
+
+// VerifEVMStorage reads one storage slot of a contract through a copy of the CommitStateDB (the
+// live object cache is not touched).
+func (app *App) VerifEVMStorage(addr []byte, slot ethcmn.Hash) ethcmn.Hash {
+	defer app.Context.stateDB.WithState(app.Context.deliver)
+	return app.Context.stateDB.WithState(app.VerifViewState()).Copy().GetState(ethcmn.BytesToAddress(addr), slot)
+}
+
+// VerifConsumedGas is the gas consumed so far on the deliver state's (block) gas calculator.
+func (app *App) VerifConsumedGas() int64 { return int64(app.Context.deliver.GetCalculator().GetConsumed()) }
